@@ -23,7 +23,7 @@ from props import sbc_gen as G
 from props import sbc_terms as T
 
 LEVEL = "proof"
-STATIC = ["Sbc/PipelineProofs.vo", "Sbc/Examples.vo", "Sbc/Pipeline.vo", "Sbc/ClusterCacheProofs.vo", "Base/CaseUtil.vo"]
+STATIC = ["Sbc/PipelineProofs.vo", "Sbc/Examples.vo", "Sbc/Pipeline.vo", "Sbc/ClusterCacheProofs.vo", "Sbc/PipelineBond.vo", "Base/CaseUtil.vo"]
 PID = "C01"
 IMPL = "c01_impl"
 KNOWN_EXC_KEYS = {}
